@@ -21,6 +21,11 @@ def swarm(rng):
         "p_check": rng.choice([0.15, 0.3]),
         "focus": rng.choice(["mixed", "refs", "struct", "values", "mixed"]),
     }
+    if rng.random() < 0.15:
+        # names that are prefixes of each other, and child spaces named like top-level ones: dotted-name arithmetic
+        # (prefix tests, trailing-name matching) must not confuse A with A2, or B.A with A
+        cfg["tops"] = ["A", "A2", "B", "AB"]
+        cfg["children"] = ["U", "A"]
     pr = rng.choice([None, None, ["attr_child_model", "attr_child", "attr_space_model"],
                      ["attr_model", "attr_other", "attr_parent"], ["name", "model_name"]])
     if pr:
